@@ -126,6 +126,16 @@ def run(repo: Repo, chk: Check) -> None:
     for k, v in ref.items():
         chk.ob('R-TABLE', f'pytezos.rpc.kind.validation_passes[{k}]', vp.get(k) == v, 'validation pass', kmi.relpath, {'found': vp.get(k), 'reference': v},
                what=f'{k} is in validation pass {v}; the table says {vp.get(k)}, which selects the wrong watermark')
+    # the consensus watermark is chosen by `pass == 0`: no kind outside the consensus family may sit in pass 0 (failing_noop, which is in no pass, included)
+    CONSENSUS = {'endorsement', 'endorsement_with_slot', 'preendorsement', 'attestation', 'preattestation', 'attestation_with_dal', 'attestations_aggregate',
+                 'preattestations_aggregate', 'dal_attestation'}
+    for k, v in vp.items():
+        if k in ref:
+            continue
+        chk.ob('R-TABLE', f'pytezos.rpc.kind.validation_passes[{k}]', (v == 0) == (k in CONSENSUS), 'pass 0 exactly for consensus kinds', kmi.relpath,
+               {'found': v, 'consensus_kind': k in CONSENSUS},
+               what=f'{k} is {"a" if k in CONSENSUS else "not a"} consensus operation but the table puts it in validation pass {v}: sign() chooses the consensus '
+                    'watermark (0x02 + chain id) exactly for pass 0, so such a group is signed under the wrong watermark')
     chk.minimum('validation pass rows', len(vp), 16)
 
     # ---- 5 what is signed / hashed is the forging of the CURRENT contents: forge() and hash() are functions of the group as it is when called
